@@ -58,6 +58,7 @@ UFUNS = dict(common_c.UFUNS)
 UFUNS.update({
     "degree30": (["int"], "bool"),     # "no stem of the structure crosses more than 29 other stems" (see degree30_definition)
     "numeral": (["str"], "bool"),      # "is a plain decimal numeral [0-9]+" (numeral_definition; keeps regular-language reasoning local)
+    "times": (["int", "int"], "int"),  # x * y (times_definition): keeps non-linear arithmetic out of the quantified invariants
     "esum": (["int", "int"], "int"),   # running sum of the values of the first n variables of the list-sum constraint k
 })
 
@@ -549,8 +550,9 @@ def cols_full(VBO, VRO, i, j, M):
 
 @spec
 def coef(R, a, o):
-    """C02 (4): objective coefficient of x_a_o: +length on level 0, -level * length above"""
-    return ite(o == 0, R[a][2], -1 * R[a][2] * o)
+    """C02 (4): objective coefficient of x_a_o: +length on level 0, -length * level above (times(x, y) is x * y: lemma
+    times_definition - the product is kept uninterpreted inside the quantified invariants)"""
+    return ite(o == 0, R[a][2], times(-1 * R[a][2], o))
 
 
 @spec
@@ -620,6 +622,7 @@ LEMMAS.update({
     "numeral_definition_all": {"kind": "definition", "params": ["L"], "shapes": ["list[str]"],
                                "ensures": ["forall(lambda q: numeral(L[q]) == matches(L[q], DIGITS), pats=['L[q]'])"]},
     "esum_definition": {"kind": "definition", "params": ["P"], "ensures": ["esum_def(P)"]},
+    "times_definition": {"kind": "definition", "params": ["x", "y"], "ensures": ["times(x, y) == x * y"]},
     # Python facts about str.split / int() / str()
     "split3": {"kind": "assumed-external", "params": ["a", "b", "c"], "shapes": ["str", "str", "str"],
                "ensures": ["implies(not ('_' in a) and not ('_' in b) and not ('_' in c), "
@@ -785,12 +788,22 @@ class convert_to_dot_bracket:
                 "forall a, b | let CAB = 0 <= a and a < b and b < len(regions) and cross(regions, a, b) "
                 "| assert implies(CAB, 0 <= combinations_pos[(a, b)] and combinations_pos[(a, b)] < c0) "
                 "| assert implies(CAB, a in graph and b in graph[a]) | assert implies(CAB, b in graph and a in graph[b]) "
-                "| assert implies(CAB, a in graph and b in graph[a] and b in graph and a in graph[b])",
-                "forall a, b | assert implies(0 <= a and a < len(regions) and 0 <= b and b < len(regions) and cross(regions, a, b), a in graph and b in graph[a])",
+                "| assert implies(CAB, a in graph and b in graph[a] and b in graph and a in graph[b]) | pats regions[a][0]; regions[b][0]",
+                "forall a, b | let CR = 0 <= a and a < len(regions) and 0 <= b and b < len(regions) and cross(regions, a, b) "
+                "| assert implies(CR and a < b, a in graph and b in graph[a]) | assert implies(CR and b < a, cross(regions, b, a)) "
+                "| assert implies(CR and b < a, a in graph and b in graph[a]) | assert implies(CR, a != b) "
+                "| assert implies(CR, a in graph and b in graph[a]) | pats regions[a][0]; regions[b][0]",
                 "assert graph_exact(graph, regions)",
                 "forall a | use degree30_definition(self, regions, a, graph[a]) | assert implies(a in graph, card(graph[a]) <= 29)",
                 "forall a | assert implies(a in graph, GW[a] in graph[a] and card(graph[a]) >= 1)",
+                # max_order is (within one of) the size of the neighbour set of some key
+                "assert exists(lambda p: 0 <= p and p < len(list(graph.keys())) and list(graph.keys())[p] in graph "
+                "and card(graph[list(graph.keys())[p]]) <= max_order and max_order <= card(graph[list(graph.keys())[p]]) + 1)",
+                "assert exists(lambda p: 0 <= p and p < len(list(graph.keys())) and list(graph.keys())[p] in graph "
+                "and 1 <= card(graph[list(graph.keys())[p]]) and card(graph[list(graph.keys())[p]]) <= 29 "
+                "and card(graph[list(graph.keys())[p]]) <= max_order and max_order <= card(graph[list(graph.keys())[p]]) + 1)",
                 "assert 1 <= max_order and max_order <= 30",
+                "assert len(list(graph.keys())) > 0 and list(graph.keys())[0] in graph",
                 # only the bound is needed below: the defining facts of max / map / len are dropped
                 "assert len(regions) >= 1",
                 "summarize LB as 1 <= max_order and max_order <= 30 and len(regions) >= 1 and graph_exact(graph, regions)"]},
@@ -901,8 +914,11 @@ class convert_to_dot_bracket_model(convert_to_dot_bracket):
                 "forall a, b | let CAB = 0 <= a and a < b and b < len(regions) and cross(regions, a, b) "
                 "| assert implies(CAB, 0 <= combinations_pos[(a, b)] and combinations_pos[(a, b)] < c0) "
                 "| assert implies(CAB, a in graph and b in graph[a]) | assert implies(CAB, b in graph and a in graph[b]) "
-                "| assert implies(CAB, a in graph and b in graph[a] and b in graph and a in graph[b])",
-                "forall a, b | assert implies(0 <= a and a < len(regions) and 0 <= b and b < len(regions) and cross(regions, a, b), a in graph and b in graph[a])",
+                "| assert implies(CAB, a in graph and b in graph[a] and b in graph and a in graph[b]) | pats regions[a][0]; regions[b][0]",
+                "forall a, b | let CR = 0 <= a and a < len(regions) and 0 <= b and b < len(regions) and cross(regions, a, b) "
+                "| assert implies(CR and a < b, a in graph and b in graph[a]) | assert implies(CR and b < a, cross(regions, b, a)) "
+                "| assert implies(CR and b < a, a in graph and b in graph[a]) | assert implies(CR, a != b) "
+                "| assert implies(CR, a in graph and b in graph[a]) | pats regions[a][0]; regions[b][0]",
                 "assert graph_exact(graph, regions)",
                 "forall a | assert implies(a in graph, 0 <= GPOS[a] and GPOS[a] < len(list(graph.keys())) and list(graph.keys())[GPOS[a]] == a)",
                 "forall a | assert implies(a in graph, card(graph[a]) + 1 <= max_order)",
@@ -917,6 +933,8 @@ class convert_to_dot_bracket_model(convert_to_dot_bracket):
                 "let TPOS = empty('dict[tuple[int,int],int]')"]},
         {"when": "after", "at": "length = region_by_var[var][2]", "label": "term-position",
          "do": ["assert order == c3 and var is var_by_region_order[(c4, c3)] and GI[ident(var)] == c4 and GJ[ident(var)] == c3",
+                "assert length == regions[c4][2] and ours(var, A1, A2)",
+                "use times_definition(-1 * length, order)",
                 "let TPOS = dstore(TPOS, (c4, c3), len(terms))"]},
         {"when": "after", "at": "problem += pulp.lpSum(terms)", "label": "model-4-objective", "do": ["assert " + _OM]},
         {"when": "before", "at": "for i in graph.keys()", "label": "edge-of-constraint",
